@@ -221,7 +221,7 @@ func (g *exprGen) shape(depth int) *model.Node {
 	case x < 28:
 		return &model.Node{Op: "index", Kids: []*model.Node{g.shape(d), g.shape(d)}}
 	default:
-		n := &model.Node{Op: "call", Lit: mon.Pick(r, []string{"Min", "Array", "f", "Sum", "Pi", "If"})}
+		n := &model.Node{Op: "call", Lit: mon.Pick(r, []string{"Min", "Array", "f", "Sum", "Pi", "If", "Min", "Array", "Sum", "If", "StandardDeviation", "LeastCommonMultiple", "a_function_nobody_defined_anywhere", "Zzzzzzzzzzzzzzzzzzzzzzzz"})}
 		for i := r.Intn(4); i > 0; i-- {
 			n.Kids = append(n.Kids, g.shape(d))
 		}
